@@ -214,6 +214,22 @@ theorem C07_adaptive_timeout_clamped (x : Nat) :
   rw [h1, h2]
   omega
 
+/-- whatever the measurements were, what is *stored* as the next initial timeout is within the bounds
+    (so the hypothesis `t0 ≤ MAX` of `C07_silent_upstream_bounded` holds of every exchange) -/
+theorem C07_stored_timeout_bounded (computed : Nat) :
+    Generated.Dns.minDnsTimeoutMs ≤ storedTimeout computed ∧ storedTimeout computed ≤ Generated.Dns.maxDnsTimeoutMs := by
+  unfold storedTimeout
+  simp only [Generated.Net.timeoutUpdatesClamped, if_true]
+  exact ⟨(C07_adaptive_timeout_clamped computed).1, (C07_adaptive_timeout_clamped computed).2.1⟩
+
+/-- a connection opened at `now` is not torn down by either idle watchdog during its first 120 s, however old the
+    timestamps of the connection it replaces -/
+theorem C07_fresh_connection_survives (old : Timers) (now t : Nat) (h1 : now ≤ t) (h2 : t < now + 120) :
+    watchdogFires (connect now old) t = false := by
+  unfold watchdogFires connect
+  simp only [Generated.Net.muxConnectResetsTimers, if_true, Generated.Net.muxIdleSeconds]
+  simp; omega
+
 /-! ### the source address of the reply -/
 
 /-- **The address handed to `sendmsg` as source is, octet for octet in memory, the address the query
